@@ -161,6 +161,15 @@ class Prop:
                 runs.clear()
                 events.clear()
                 changes = world.apply(op, i)
+                # getter runs made while the change was being delivered (class-level
+                # handlers that read properties run before the invalidating observer,
+                # so they may compute once and be invalidated straight after) are not
+                # runs "between two changes": the at-most-once rule is applied to the
+                # reads made from the quiescent point on
+                if runs:
+                    stats["inflight_getter_runs"] = stats.get("inflight_getter_runs", 0) + \
+                        sum(runs.values())
+                runs.clear()
                 after = self.model_all(world)
                 changed = [key for key in after if before.get(key) != after[key]]
                 for key in changed:
